@@ -436,6 +436,21 @@ func (w *world) resetSpecials() {
 	}
 }
 
+// softReset brings the world back to the background after a deviation: the
+// journal restores what the model knows about, every file that still differs
+// from the background afterwards is rewritten completely.
+func (w *world) softReset() {
+	w.undo()
+	for _, f := range w.files {
+		if !bytes.Equal(f.impl, f.bg) {
+			copy(f.impl, f.bg)
+		}
+		if !bytes.Equal(f.model, f.bg) {
+			copy(f.model, f.bg)
+		}
+	}
+}
+
 // hardReset rewrites every byte (after a deviation nothing is trusted).
 func (w *world) hardReset() {
 	for _, f := range w.files {
@@ -886,7 +901,7 @@ func newTimingWorld() *world {
 
 type stats struct {
 	runs, ops, reads, slow, readbacks int64
-	xcmp, xdis             int64
+	xcmp, xdis                        int64
 }
 
 type finding struct {
@@ -948,8 +963,19 @@ func (w *world) describeAnswer(s *slot, o op, got, want []byte) string {
 // runDetailed re-executes a history from a clean state, checking the whole
 // state after every operation; it returns the first deviation as a finding.
 func (w *world) runDetailed(actor *slot, hist []op, trace io.Writer) *finding {
-	w.hardReset()
-	defer w.hardReset()
+	// first without the per-operation read-back (nearly every deviation shows
+	// in the operation's outcome or in the raw state), then with it
+	if trace == nil {
+		if f := w.runDetailedPass(actor, hist, nil, false); f != nil {
+			return f
+		}
+	}
+	return w.runDetailedPass(actor, hist, trace, true)
+}
+
+func (w *world) runDetailedPass(actor *slot, hist []op, trace io.Writer, withReadBack bool) *finding {
+	w.softReset()
+	defer w.softReset()
 	mk := func(pos int, sig, msg string) *finding {
 		return &finding{sig: sig, msg: msg, rc: replayCase{World: w.mode, Actor: actor.name, History: append([]op(nil), hist[:pos+1]...)}}
 	}
@@ -1021,6 +1047,9 @@ func (w *world) runDetailed(actor *slot, hist []op, trace io.Writer) *finding {
 		if out.bad {
 			return mk(pos, fmt.Sprintf("%s/read-%s/%s", head, w.describeAnswer(actor, o, out.got, out.want), apiName),
 				fmt.Sprintf("%s on %s wavefront %s returns %x, the cell model says %x (history before: %s)", o, w.mode, actor.name, out.got, out.want, pre))
+		}
+		if !withReadBack {
+			continue
 		}
 		if cell, got, want := w.readBack(actor, &n); cell != "" {
 			return mk(pos, fmt.Sprintf("%s/readback/%s", w.mode, strings.SplitN(cell, ".lane", 2)[0]),
@@ -1206,7 +1235,7 @@ func main() {
 			var n int64
 			for _, a := range w.actors {
 				if cell, g, wnt := w.readBack(a, &n); cell != "" {
-					c.report(&finding{sig: w.mode + "/readback/" + cell, msg: fmt.Sprintf("initial read-back %s: %x want %x", cell, g, wnt), rc: replayCase{World: w.mode, Actor: a.name}})
+					c.report(&finding{sig: w.mode + "/readback/" + strings.SplitN(cell, ".lane", 2)[0], msg: fmt.Sprintf("initial read-back %s: %x want %x", cell, g, wnt), rc: replayCase{World: w.mode, Actor: a.name}})
 				}
 			}
 		}
@@ -1347,8 +1376,6 @@ func replay(r *harness.Run, full []op) {
 		found := false
 		for _, o := range full {
 			if o.Kind == hist[i].Kind && o.RC == hist[i].RC {
-				sz := shapes[o.sh].size()
-				_ = sz
 				hist[i].sh = o.sh
 				found = true
 				break
